@@ -1,9 +1,10 @@
 from vf import Job
 TU = "c08_uncond.c"
-L_WAL = {"myth_felock_wait_and_lock_body": [dict(loop_id="0", assigns="FE.status, g_waits", invariants="g_hold == 1")]}
+L_WAL = {"myth_felock_wait_and_lock_body": [dict(loop_id="0", assigns="FE.status, g_waits, g_hold, g_unlocked", invariants="g_hold == 1")]}
 JOBS = [
   Job("c09.wait_and_lock", TU, "h_fe_wait_and_lock", loops=L_WAL, loop_counts={"myth_felock_wait_and_lock_body": 1},
-      replace=["myth_mutex_lock_body/fe_lock_contract", "myth_cond_wait/fe_cond_wait_contract"],
+      replace=["myth_mutex_lock_body/fe_lock_contract", "myth_cond_wait/fe_cond_wait_contract",
+               "myth_mutex_unlock_body/fe_unlock_contract", "myth_block_on_queue/fe_block_contract"],
       fuc=["myth_felock_wait_and_lock_body"], timeout=200),
   Job("c09.mark_and_signal", TU, "h_fe_mark_and_signal",
       replace=["myth_cond_signal/fe_cond_signal_contract", "myth_mutex_unlock_body/fe_unlock_contract"],
